@@ -336,6 +336,8 @@ class Summaries:
         m = re.match(r"^(?:rpds::)?RedBlackTreeMap::(\w+)$", n)
         if m:
             return self.pmap(st, m.group(1), A, name)
+        if re.match(r"^<Map<rpds::vector::IterPtr<.*> as IntoIterator>::into_iter$", n):
+            return A[0]
         m = re.match(r"^<Map<rpds::vector::IterPtr<.*> as Iterator>::(nth|next)$", n)
         if m:
             itv = self.deref_val(st, A[0]) if isinstance(A[0], Ref) else A[0]
